@@ -247,13 +247,17 @@ Definition send_value (cs : list chan) (hops : nat) (bs : nat) (cut_at : nat) (p
                          if t_mode l =? 2 then ss
                          else update ss (t_chan l) (set_link (nth_st ss (t_chan l)) (t_side l) (link_of l)))
                        tls ss2 in
-          (* both ends of a husk connection (F10) are dropped at the origin: its ports are free again *)
-          let husk_now (i : nat) := (4 <=? c_ck (nth_chan cs i)) && both_direct (nth_st ss3 i) in
-          let conn := count_if (fun l => negb (husk_now (t_chan l)) &&
+          (* both ends of a husk connection (F10) are dropped at the origin: its ports are free again
+          (when the peer is a forwarding hop, which gives up both directions; a far end that still holds
+             its halves keeps the ports alive) *)
+          let husk_now (i : nat) := Nat.leb 2 hops && (4 <=? c_ck (nth_chan cs i)) && both_direct (nth_st ss3 i) in
+          (* (only the connection of the receiver half: the forwarder's tasks for the sender half's
+             connection wait for the far sender, which is still alive) *)
+          let is_rx (l : tleaf) := side_eqb (t_side l) SRx in
+          let conn := count_if (fun l => negb (husk_now (t_chan l) && is_rx l) &&
                                          match link_of l with LOk _ | LParked => true | _ => false end) tls in
           let back := count_if (fun i => husk_now i && negb (both_direct (nth_st (w_cs w) i)) &&
-                                         negb (existsb (fun l => Nat.eqb (t_chan l) i && t_direct l) tls
-                                               && (count_if (fun l => Nat.eqb (t_chan l) i) tls =? 2)))
+                                         negb (existsb (fun l => Nat.eqb (t_chan l) i && is_rx l) tls))
                                (seq 0 (length cs)) in
           let connf := count_if (fun l => match link_of l with LOk _ | LParked => true | _ => false end) tls in
           (mkW ss3 (if dead_now =? 0 then (let f := sub_free (w_f0 w) conn in if 99 <=? f then f else f + back) else 99)
